@@ -336,8 +336,9 @@ impl SendRateComp {
                         self.send_rate = (self.send_rate/2).max(MINIMUM_RATE);
                     }
                 } else {
-                    // In slow start, but no feedback has been received.
-                    debug_assert!(self.nofeedback_idle == false);
+                    // In slow start, but no feedback has been received. The sender may well have
+                    // been idle since the previous expiration (nothing to send, or only sync
+                    // frames); RFC 5348 section 4.4 halves the rate in that case too.
 
                     // Halve send rate every RTO, subject to minimum
                     self.send_rate = (self.send_rate/2).max(MINIMUM_RATE);
